@@ -424,6 +424,25 @@ def values_equal(a, b):
         if len(a.items) != len(b.items):
             return False
         return b_and(*[values_equal(x, y) for x, y in zip(a.items, b.items)])
+    if isinstance(a, PDict) and isinstance(b, PDict):
+        # dicts compare by content; decided here when one side is empty or all keys are concrete / objects
+        if not a.entries or not b.entries:
+            return not a.entries and not b.entries
+        if len(a.entries) != len(b.entries):
+            raise Unsupported("== between dicts of different modelled sizes (keys may coincide)")
+        out = []
+        for ka, va in a.entries:
+            hit = None
+            for kb, vb in b.entries:
+                same = values_equal(ka, kb)
+                if not isinstance(same, bool):
+                    raise Unsupported("== between dicts with symbolic keys")
+                if same:
+                    hit = vb
+            if hit is None:
+                return False
+            out.append(values_equal(va, hit))
+        return b_and(*out)
     if isinstance(a, PVec) and isinstance(b, PVec):
         raise Unsupported("== on numpy arrays")
     if isinstance(a, (PExcClass, PClass, PFunc, PModule)) or isinstance(
